@@ -192,6 +192,14 @@ for fl in ("global", "async"):
         nm = f"nm{fid}" if i % 4 == 1 else None
         add(fid, "meta", fl, limit=2, tags=tg, events=ev, deps=dp, name=nm)
         fid += 1
+# dependencies are usually the names of other caches: one that lists its own name, one that depends on a
+# neighbour's function name, one that is only depended upon
+fid = 5300
+add(fid, "selfdep", "global", limit=2, deps=("sd_own",), name="sd_own"); fid += 1
+add(fid, "selfdep", "async", limit=2, deps=(f"a{fid}", "x")); fid += 1
+add(fid, "selfdep", "global", limit=2, deps=(f"a{fid - 1}",), tags=("x",)); fid += 1
+add(fid, "selfdep", "async", limit=2, deps=("sd_own",), name="sd_other"); fid += 1
+add(fid, "selfdep", "global", limit=2, events=(f"g{fid}",), tags=(f"g{fid}",)); fid += 1
 # --- drivers for the threaded engines: small limits, ttl, memory, all with group metadata
 fid = 6000
 for fl in ("global", "async"):
